@@ -660,6 +660,10 @@ def enum_cases():
     ms.insert(4, [3, H4, [10, 0, 0, 9], 179, 40000, OPEN_FORMS[0][1], OPEN_FORMS[1][1]])
     ms.insert(8, [2, H6, [1, NOTIF_FORMS[0]]])
     add('bmp_codec_state_across_messages', {'kind': 'bmp', 'pre': [1, 2, 3], 'msgs': ms})
+    # the 4096-octet limit must be back in force after an update that needed the extended one
+    big = big_attr_forms()[2][1]
+    sw = dict((f[0], f) for f in split_windows())
+    add('bmp_codec_state_after_extended_length', {'kind': 'bmp', 'pre': [], 'msgs': [[0, H4, big, 0], [0, H4, sw['split_v4_reach_812'][1], 0], [0, H4, big, 0], [0, H4, sw['split_v4_unreach_816'][1], 0]]})
     # ---- BMP: Peer Down, every reason x peer family; FSM code and NOTIFICATION data boundaries
     for hn, h in (('v4', H4), ('v6', H6)):
         ms = [[2, h, [1, n]] for n in NOTIF_FORMS[:3]] + [[2, h, [2, c]] for c in (0, 1, 255, 256, 65535)] + \
@@ -714,6 +718,7 @@ def enum_cases():
         _, u, ap = byname[nm]
         ms.append([MH6 if u[2] == IPV6 else MH4, u, ap])
     add('mrt_codec_state_across_messages', {'kind': 'mrt', 'pre': [7], 'msgs': ms})
+    add('mrt_codec_state_after_extended_length', {'kind': 'mrt', 'pre': [], 'msgs': [[MH4, big, 0], [MH4, sw['split_v4_reach_812'][1], 0], [MH4, big, 0], [MH4, sw['split_v4_unreach_816'][1], 0]]})
     # a BGP4MP record may carry any BGP message
     add('mrt_bodies_other_than_update', {'kind': 'mrt', 'pre': [], 'msgs': [[MH4, [4], 0], [MH6, OPEN_FORMS[5][1], 0], [MH4, NOTIF_FORMS[2], 1], [MH6, [5, IPV6], 1], [MH4, [4], 1]]})
     for n in (1, 11, 12, 13):
